@@ -377,6 +377,21 @@ def run(ctx):
         tl = calls(b_, r'RwLock::<R, T>::try_(write|read)\w*$|RwLock<.*>::try_(write|read)\w*$')
         C.check(not tl, 'C05-MUST-register', '%s|blocking-model-lock' % fn_.split('::')[-1], '%s takes the model lock with a try-lock: when it is not obtained the update of the referrer map is skipped and nobody is told' % fn_, b_.where(tl[0]) if tl else '',
                 sample={'fn': fn_, 'lock': 'RwLock::write'})
+    # the loader registers a reference for exactly the text it stores: after `references.push((text, element))` the same value is
+    # pushed into the element's content on every path that goes on (a piece of text that is reported and dropped is not registered)
+    pe_ = P.find('ArxmlParser::parse_element')
+    if pe_ is not None:
+        rp_ = [pos for pos, t in pe_.iter_calls() if call_matches(t, r'Vec::<T, A>::push$') and (lambda rp: rp is not None and has_field(rp, 'ArxmlParser.references'))(E.recv_place(pe_, t))]
+        cw_ = [o['pos'] for o in E.content_ops(pe_) if o['kind'] == 'insert' and o['item'] == 'CharacterData']
+        from pairing import iteration_start
+        okp = bool(rp_) and bool(cw_)
+        for r_ in rp_:
+            hdr = iteration_start(pe_, r_)
+            stops = [hdr] + E.ok_exit_positions(pe_)
+            if not must_pass(pe_, r_, stops, through=set(cw_), include_start=False):
+                okp = False
+        C.check(okp, 'C05-PAIR-origins', 'parse_element|registered-reference-text-is-stored', 'the parser registers a reference under a text that it does not store in the element (the registration is not followed by the content push on every path that continues): '
+                'the element appears in the referrer list of a path it does not refer to', pe_.where(rp_[0]) if rp_ else '%s:%d' % (pe_.file, pe_.line), sample={'fn': 'parse_element', 'event': 'references.push((text, element))', 'partner': 'content.push(CharacterData(text)) follows on every continuing path'})
     # ---- SIB-report --------------------------------------------------------------------------------
     cr = P.get('AutosarModel::check_references')
     gt = P.get('Element::get_reference_target')
